@@ -297,7 +297,7 @@ def all_run(events):
 def run_threads(cfg, preempt=None, opcode=False):
     """cfg: {"kind": "shared"|"ct"|"cts", "progs": [prog, prog, ...]} — thread i runs progs[i]; "shared" = one TrampolineScheduler
     for all threads (one trampoline), "ct"/"cts" = one CurrentThreadScheduler object / the singleton (a trampoline per thread)"""
-    ctl = Ctl(targets=TR_FILES, preempt=preempt, opcode=opcode, max_steps=cfg.get("max_steps", 8000))
+    ctl = Ctl(targets=TR_FILES, preempt=preempt, opcode=opcode, max_steps=cfg.get("max_steps", 4000))
     LItem, LPQ, LTramp = make_classes(lambda e: ctl.ev(*e), lambda: ctl.clock, lambda: ctl.me().idx)
     def logged_now():
         ctl.ev("now_read", ctl.clock)
